@@ -4,10 +4,14 @@
 use crate::ctx::{Ctx, Tier};
 use serde_json::{json, Value};
 
+pub mod c01;
 pub mod c02;
 pub mod c03;
 pub mod c05;
+pub mod c06;
 pub mod c07;
+pub mod c11;
+pub mod c13;
 pub mod tiny;
 
 pub trait Monitor {
@@ -32,10 +36,14 @@ pub trait Monitor {
 
 pub fn create(id: &str, tier: Tier, seed: u64, scale: u64) -> Option<Box<dyn Monitor>> {
     Some(match id {
+        "C01" => Box::new(c01::C01::new(tier, seed, scale)),
         "C02" => Box::new(c02::C02::new(tier, seed, scale)),
         "C03" => Box::new(c03::C03::new(tier, seed, scale)),
         "C05" => Box::new(c05::C05::new(tier, seed, scale)),
+        "C06" => Box::new(c06::C06::new(tier, seed, scale)),
         "C07" => Box::new(c07::C07::new(tier, seed, scale)),
+        "C11" => Box::new(c11::C11::new(tier, seed, scale)),
+        "C13" => Box::new(c13::C13::new(tier, seed, scale)),
         _ => return None,
     })
 }
